@@ -17,6 +17,7 @@ pub struct Acc {
     pub samples: Vec<mcx::Value>,
     pub action_views_checked: u64,
     pub collapses: u64,
+    pub faults_fired: u64,
 }
 
 pub type Filter = fn(&str, &str) -> bool;
@@ -31,6 +32,7 @@ pub fn run_case_on<SP: rtlib::rt::StorageProvider>(dag: &Dag, evs: &[Ev], oracle
     acc.transitions += sim.transitions;
     acc.action_views_checked += sim.action_views_checked;
     acc.collapses += sim.collapses;
+    acc.faults_fired += sim.faults_fired;
     for c in &sim.outcome_classes {
         *acc.outcomes.entry(c.clone()).or_default() += 1;
     }
@@ -73,6 +75,28 @@ pub fn run_all(
     run_all_on(rep, family, dags, oracles, abandon, filter, false, gen)
 }
 
+/// Runs the cases on the memory backend whose head-set commit can be armed to fail (`Ev::FailNextCommit`).
+pub fn run_all_faulty(
+    rep: &mut Report,
+    family: &str,
+    dags: &[Dag],
+    oracles: SimOracles,
+    filter: Filter,
+    gen: impl Fn(&Dag, &mut dyn FnMut(&[Ev])) + Sync,
+) -> u64 {
+    let before = rep.counter("executions");
+    let accs: Vec<Acc> = dags
+        .par_iter()
+        .map(|d| {
+            let mut acc = Acc::default();
+            gen(d, &mut |evs: &[Ev]| run_case_on(d, evs, oracles, false, filter, rtlib::replica::FaultReplica::new_faulty, &mut acc));
+            acc
+        })
+        .collect();
+    fold_accs(rep, family, accs);
+    rep.counter("executions") - before
+}
+
 /// `file_backend`: run on `LinearStorageProvider<FileManager>` in a scratch directory instead of the
 /// memory-backed provider.
 #[allow(clippy::too_many_arguments)]
@@ -100,6 +124,10 @@ pub fn run_all_on(
             acc
         })
         .collect();
+    fold_accs(rep, family, accs)
+}
+
+fn fold_accs(rep: &mut Report, family: &str, accs: Vec<Acc>) -> u64 {
     let mut per_class: BTreeMap<String, u32> = BTreeMap::new();
     let mut execs = 0;
     for a in accs {
@@ -108,6 +136,7 @@ pub fn run_all_on(
         rep.count("transitions", a.transitions);
         rep.count("action_views_checked", a.action_views_checked);
         rep.count("collapses", a.collapses);
+        rep.count("faults_fired", a.faults_fired);
         for (k, v) in a.outcomes {
             rep.outcome(&k, v);
             if let Some(rest) = k.strip_suffix(":ParallelFinalize") {
